@@ -1,6 +1,7 @@
 package rules
 
 import (
+	"go/types"
 	"fmt"
 	"go/constant"
 	"go/token"
@@ -24,6 +25,7 @@ func runC16(c *Ctx) {
 		"C16.2 a local deregistration marks the entry Deleted and keeps it; the entry disappears only in the push function's success edge; every Deleted entry is pushed at every sync",
 		"C16.3 the remote/local diff only ever clears in-sync flags or sets them from an IsSame comparison",
 		"C16.4 the push functions run with the state lock held",
+		"C16.6 an in-sync flag is set to true only on the entry the push function was called for, or on entries taken from the very list that was sent in the request — never on entries selected by scanning the local table",
 		"C16.5 a failed or paused full sync leads to the retry state, never to partial sync",
 	}
 	r.NotDecided = []string{"convergence itself over fault sequences", "server-owned fields"}
@@ -406,4 +408,88 @@ func checkSyncerFSM(c *Ctx) {
 	}
 	r.Floor("C16.5", 1)
 	_ = n
+	checkInSyncProvenance(c)
+}
+
+// C16.6
+func checkInSyncProvenance(c *Ctx) {
+	p, r := c.P, c.R
+	n := 0
+	perFn := map[string]int{}
+	for _, f := range p.SrcFuncs("agent/local") {
+		// the slices sent in a request: values stored into a field named Checks of a catalog request
+		sent := map[ssa.Value]bool{}
+		for _, b := range f.Blocks {
+			for _, in := range b.Instrs {
+				if st, ok := in.(*ssa.Store); ok {
+					if fa, ok := st.Addr.(*ssa.FieldAddr); ok && core.FieldObj(fa).Name() == "Checks" {
+						if nt := core.NamedOf(fa.X.Type()); nt != nil && strings.HasSuffix(nt.Obj().Name(), "Request") {
+							sent[st.Val] = true
+						}
+					}
+				}
+			}
+		}
+		for _, b := range f.Blocks {
+			for _, in := range b.Instrs {
+				st, ok := in.(*ssa.Store)
+				if !ok {
+					continue
+				}
+				fa, ok := st.Addr.(*ssa.FieldAddr)
+				if !ok || core.FieldObj(fa).Name() != "InSync" {
+					continue
+				}
+				if v, ok := core.ConstBool(st.Val); !ok || !v {
+					continue
+				}
+				nt := core.NamedOf(fa.X.Type())
+				if nt == nil || (nt.Obj().Name() != "CheckState" && nt.Obj().Name() != "ServiceState") {
+					continue
+				}
+				n++
+				base := core.FuncName(f) + "/" + nt.Obj().Name()
+				perFn[base]++
+				construct := fmt.Sprintf("%s#%d", base, perFn[base])
+				// where does the entry come from?
+				fromKeyParam, fromSent, fromScan := false, false, ""
+				var entry ssa.Value = fa.X
+				if lk, ok := entry.(*ssa.Lookup); ok {
+					entry = lk.Index // l.checks[key]: which key?
+				}
+				for _, leaf := range core.Leaves(entry, core.SliceOpts{ThroughCalls: true, StopAt: func(v ssa.Value) bool {
+					if rg, ok := v.(*ssa.Range); ok {
+						_, isMap := rg.X.Type().Underlying().(*types.Map)
+						return isMap
+					}
+					return sent[v]
+				}}) {
+					switch x := leaf.(type) {
+					case *ssa.Parameter:
+						tn := core.ShortType(x.Type())
+						if strings.HasSuffix(tn, "CheckID") || strings.HasSuffix(tn, "ServiceID") {
+							fromKeyParam = true
+						}
+					case *ssa.Range:
+						if _, isMap := x.X.Type().Underlying().(*types.Map); isMap {
+							fromScan = "a scan of " + strings.Join(core.AccessOf(x.X).Fields, ".")
+						}
+					default:
+						if sent[leaf] {
+							fromSent = true
+						}
+					}
+				}
+				switch {
+				case fromScan != "":
+					r.Violate("C16.6", construct, p.Pos(st.Pos()), "the in-sync flag is set on entries chosen by "+fromScan+", not on what was sent: an entry that was never pushed (a check registered under another token, a check added while the push was failing) is recorded as synced and is skipped by every later sync")
+				case fromKeyParam || fromSent:
+					r.Hold("C16.6", construct, p.Pos(st.Pos()), map[bool]string{true: "the entry the function was called for", false: "an element of the list sent in the request"}[fromKeyParam && !fromSent])
+				default:
+					r.Undecide("C16.6", construct, p.Pos(st.Pos()), "cannot tell which entry is flagged in sync")
+				}
+			}
+		}
+	}
+	r.Floor("C16.6", 7)
 }
